@@ -529,6 +529,12 @@ def scripts_c01(tier, rng):
     b, s2 = hist_scripts("c01i", n // 4, rng, max_ops=25, queries=("st", "read", "iter"), worker_steps=True)
     for k, v in s2.items():
         s1[k] = s1.get(k, 0) + v
+    if tier == "thorough":
+        # every legal history of up to 4 operations from the state-dependent alphabet, under four
+        # chunk-limit classes
+        e = gen.enum_histories(4, True, ["st", f"read 0 {U64MAX}"], ["cfg", "cfg mr=1", "cfg mr=2 ms=64", "cfg ms=0"])
+        s1["enumerated-depth4"] = len(e)
+        return a + b + e, s1
     return a + b, s1
 
 
@@ -550,6 +556,13 @@ def scripts_c06(tier, rng):
         out.append((f"c06_{i}", lines))
         for k, v in g.stats.items():
             stats[k] = stats.get(k, 0) + v
+    if tier == "thorough":
+        q = ["st", f"read 0 {U64MAX}", "stat", "res"]
+        e = gen.enum_histories(3, False, q, ["cfg", "cfg mr=2"])
+        e = [(n, l[:2] + q + l[2:] + ["flush 9999", "widle", "st", f"read 0 {U64MAX}", "size", "dir", "drop", "open",
+                                       "st", f"read 0 {U64MAX}", "size"]) for n, l in e]
+        stats["enumerated-depth3"] = len(e)
+        out += e
     return out, stats
 
 
